@@ -99,6 +99,24 @@ func applyReal(doc string, e edit) (res string, linesOK bool, panicked any) {
 	return
 }
 
+// applySeq applies the edits one after another to ONE real Document.
+func applySeq(doc string, es []edit) (res string, panicked any) {
+	defer func() {
+		if r := recover(); r != nil {
+			panicked = r
+		}
+	}()
+	d := proxy.NewDocument(nil, doc)
+	for _, e := range es {
+		var r *lsp.Range
+		if !e.full {
+			r = &lsp.Range{Start: lsp.Position{Line: uint32(e.s.l), Character: uint32(e.s.c)}, End: lsp.Position{Line: uint32(e.e.l), Character: uint32(e.e.c)}}
+		}
+		d.Apply(r, e.text)
+	}
+	return d.String(), nil
+}
+
 // classify returns the known-defect signature a wrong result matches, or "" if none.
 func classify(doc string, e edit, got string) string {
 	if e.full {
@@ -196,6 +214,46 @@ func main() {
 			break
 		}
 	}
+	// Histories on ONE Document object (the BFS above starts every transition from a fresh object built from the
+	// state's text, which would hide state cached inside the object): every pair of edits from every small initial
+	// document, and the same pair through DocumentContents-style batches, applied to the same object.
+	histories := 0
+	smallMax := run.Pick(2, 3)
+	for _, doc0 := range initial {
+		if len(doc0) > smallMax {
+			continue
+		}
+		for _, e1 := range edits(doc0, texts) {
+			mid := doc0
+			if e1.full {
+				mid = e1.text
+			} else {
+				mid = refApply(doc0, e1.s, e1.e, e1.text)
+			}
+			if len(mid) > capLen {
+				continue
+			}
+			for _, e2 := range edits(mid, texts) {
+				histories++
+				want := mid
+				if e2.full {
+					want = e2.text
+				} else {
+					want = refApply(mid, e2.s, e2.e, e2.text)
+				}
+				got, p := applySeq(doc0, []edit{e1, e2})
+				h := fmt.Sprintf("open(%q) ; %s ; %s (same object)", doc0, e1, e2)
+				if p != nil {
+					run.Violation("panic", fmt.Sprintf("Apply panicked: %v after %s", p, h), map[string]any{"history": h})
+				} else if got != want {
+					run.Violation("history-mismatch", fmt.Sprintf("%s: got %q want %q", h, got, want), map[string]any{"history": h, "got": got, "want": want})
+				}
+			}
+		}
+	}
+	transitions += histories
+	validated += histories
+	run.Cov["same_object_two_edit_histories"] = histories
 	run.Sample(map[string]any{"history": "open(\"ab\\ncd\") ; 0:0-0:2→\"x\"", "expect": "x\ncd"})
 	run.Sample(map[string]any{"history": "open(\"a\") ; 3:0-4:1→\"x\\ny\"", "expect": "ax\ny", "note": "both positions beyond the end clamp to the end"})
 	run.Cov["states"] = len(seen)
